@@ -1715,6 +1715,14 @@ def merge_nested_comprehensions(source: str) -> str:
                     new_generators.append(comprehension)
                     continue
 
+                # The inner comprehension may read a variable of the enclosing scope that is spelled
+                # like the outer target; renamed, its own target would be taken for that variable.
+                if target_name_inner != comprehension.target.id and any(
+                    core.walk(comprehension.iter, ast.Name(id=comprehension.target.id))
+                ):
+                    new_generators.append(comprehension)
+                    continue
+
                 tf = RenameTransformer(target_name_inner, comprehension.target.id)
 
                 # The transformer modifies nodes in place, and the parsed tree is cached
